@@ -51,6 +51,7 @@ func main() {
 		solver := fs.String("solver", "z3", "solver binary")
 		sel := fs.Bool("select", false, "explore select alternatives")
 		unstub := fs.String("unstub", "", "comma separated environment models to switch off")
+		exactFloat := fs.Bool("exact-float", false, "IEEE floating point arithmetic instead of abstract float operations")
 		samples := fs.Int("samples", 0, "path-end samples")
 		mapOrder := fs.Int("maporder", 0, "explore iteration orders of maps up to this size")
 		splitN := fs.Int("splitn", 0, "")
@@ -62,7 +63,7 @@ func main() {
 		fs.Var(&redirs, "redirect", "function=harnessFunction")
 		fs.Parse(os.Args[2:])
 		spec := symgo.RunSpec{RepoDir: repoDir(), HarnessDir: verifDir() + "/harness", Pkg: *pkg, Fn: *fn, Sched: *sched, Preempt: *preempt,
-			Unwind: *unwind, MaxPaths: *maxPaths, LogQueries: *logq, Solver: *solver, Progress: true, Select: *sel, Unstub: splitNonEmpty(*unstub), SampleEnds: *samples,
+			Unwind: *unwind, MaxPaths: *maxPaths, LogQueries: *logq, Solver: *solver, Progress: true, Select: *sel, Unstub: splitNonEmpty(*unstub), ExactFloat: *exactFloat, SampleEnds: *samples,
 			SplitN: *splitN, SplitI: *splitI, SplitDepth: *splitD, MapOrder: *mapOrder, Params: map[string]int64{}}
 		for _, p := range params {
 			kv := strings.SplitN(p, "=", 2)
